@@ -240,6 +240,52 @@ def consumers(ctx):
                 ctx.fail("writer:stale-target", f"{label}: slides read {t3} after re-opening, {texts} before", case)
 
 
+    # a main part directly at the package root (depth-1 part name, as some producers write): its relationships item is
+    # /_rels/<name>.rels, its Targets are relative to "/"; load, save, re-open
+    for k in range(3 if ctx.quick else 12):
+        newname = rng.choice(["presentation.xml", "main.xml", "deck1.xml"])
+        out = io.BytesIO()
+        with zipfile.ZipFile(out, "w", zipfile.ZIP_DEFLATED) as zo:
+            for name in zin.namelist():
+                data = zin.read(name)
+                if name == "ppt/presentation.xml":
+                    name = newname
+                elif name == "ppt/_rels/presentation.xml.rels":
+                    name = "_rels/%s.rels" % newname
+                    form = rng.choice(["relative", "absolute", "dotted"])
+                    data = re.sub(rb'Target="(?!http)([^"/][^"]*)"', lambda m: b'Target="' + {"relative": b"ppt/", "absolute": b"/ppt/", "dotted": b"./ppt/"}[form] + m.group(1) + b'"', data)
+                elif name == "_rels/.rels":
+                    data = data.replace(b'Target="ppt/presentation.xml"', b'Target="%s"' % newname.encode())
+                elif name == "[Content_Types].xml":
+                    data = data.replace(b'PartName="/ppt/presentation.xml"', b'PartName="/%s"' % newname.encode())
+                elif name.endswith(".rels"):
+                    data = data.replace(b'Target="../presentation.xml"', b'Target="../../%s"' % newname.encode())
+                zo.writestr(name, data)
+        case = {"main-part": "/" + newname}
+        ctx.case(key=("consumer-root-main", k, newname)); ctx.count("consumer-root-level-main-part")
+        try:
+            p2 = Presentation(io.BytesIO(out.getvalue()))
+            n0 = len(p2.slides)
+            b2 = io.BytesIO(); p2.save(b2)
+        except Exception as e:  # noqa
+            ctx.fail("root-part:raises", f"a package whose main part is /{newname} raised {type(e).__name__}: {str(e)[:120]} on open / save", case)
+            continue
+        z = zipfile.ZipFile(io.BytesIO(b2.getvalue()))
+        bad = [n for n in z.namelist() if n.startswith("/") or "//" in n]
+        want = "_rels/%s.rels" % newname
+        if n0 != 3 or bad or want not in z.namelist():
+            ctx.fail("root-part:rels-item-name", f"main part /{newname}: {n0} slides loaded; saved members with an empty segment {bad}; relationships item {want!r} "
+                     f"{'present' if want in z.namelist() else 'absent'} (OPC: /_rels/{newname}.rels)", case)
+            continue
+        try:
+            p3 = Presentation(io.BytesIO(b2.getvalue()))
+            n3 = len(p3.slides)
+        except Exception as e:  # noqa
+            n3 = f"{type(e).__name__}: {str(e)[:80]}"
+        if n3 != 3:
+            ctx.fail("root-part:rels-item-name", f"main part /{newname}: after save and re-open the deck has {n3} slides instead of 3", case)
+
+
 def correspond(ctx):
     from pptx.opc.packuri import PackURI
 
